@@ -36,7 +36,7 @@ def run_config(chk, tier, cfgname):
     n = common.confined(chk, prog, "O1-free-sites", "gc_ptr::GcPtr::drop_in_place", PRIMS, "value destructed outside sweep/arena drop")
     n += common.confined(chk, prog, "O1-free-sites", "gc_ptr::GcPtr::dealloc",
                          PRIMS + ["<gc::GcBuilder as core::ops::drop::Drop>::drop"], "block released outside sweep/arena drop/builder drop")
-    chk.floor("free-sites", n, 5)
+    chk.floor("free-sites", n, 3)
     slots, inits = prog.vtable_slots()
     chk.inst("O1-single-vtable-initialiser", "gc_ptr::GcVtable", len(set(inits)) == 1,
              detail="GcVtable is initialised in %s (must be the single const VtableFor::VTABLE)" % sorted(set(inits)))
